@@ -107,10 +107,63 @@ def stream_cases(c, decomp):
                 ops.append(rng.choice(nums + dnums))
         lines.append("ST " + " ".join(ops))
     # the same scenarios on ThreadedBufferedStream (no flush there)
-    ts = ["TS" + l[2:] for l in lines if " fl" not in l]
+    ts = ["TS" + l[2:] for l in lines if " fl" not in l] + ["TS", "TS w:8192", "TS w:16384", "TS w:8192 p", "TS p"]
     # util::StringStream: numbers after strings of every small length (std::string growth boundaries: 15/16, 30/31 ...)
     ss = ["SS w:%d %s p" % (n, num) for num in nums + dnums for n in list(range(0, 34)) + [62, 63, 64, 127, 128]]
     return lines + ts + ss
+
+
+def expected_stream_bytes(ops, dtext):
+    """the bytes a sequence of stream operations produces (independent of the model)"""
+    out = bytearray()
+    for o in ops:
+        if o.startswith("w:"):
+            out += b"x" * int(o[2:])
+        elif o == "p":
+            out += b"c"
+        elif o == "fl":
+            pass
+        elif o[:4] in ("u64:", "i64:", "u32:", "i32:"):
+            out += str(int(o[4:])).encode()
+        elif o[:2] in ("d:", "f:"):
+            t = dtext.get((o[0], o.split(":")[1]))
+            if t is None:
+                return None
+            out += t.encode("latin1")
+        else:
+            return None
+    return bytes(out)
+
+
+def stream_checksum(data):
+    a, b = 1, 0
+    for ch in data:
+        a = (a + ch) % 65521
+        b = (b + a) % 65521
+    return b * 65536 + a
+
+
+def expected_stream_length(ops, dtext):
+    """total number of bytes a sequence of stream operations produces (independent of the model:
+    integers by Python's str, doubles by the text the real ToString returned for the same bits)"""
+    n = 0
+    for o in ops:
+        if o.startswith("w:"):
+            n += int(o[2:])
+        elif o == "p":
+            n += 1
+        elif o == "fl":
+            pass
+        elif o[:4] in ("u64:", "i64:", "u32:", "i32:"):
+            n += len(str(int(o[4:])))
+        elif o[:2] in ("d:", "f:"):
+            t = dtext.get((o[0], o.split(":")[1]))
+            if t is None:
+                return None
+            n += len(t)
+        else:
+            return None
+    return n
 
 
 def run_until_death(exe, lines, env=None):
@@ -161,6 +214,11 @@ def part_formatters(c, drv, kconst):
     k = {a: int(b) for a, b in km}
     kconst.update(k)
     tymap = {"U16": "u16", "I16": "i16", "U32": "u32", "I32": "i32", "U64": "u64", "I64": "i64", "P": "ptr", "B": "bool"}
+    dtext = {}
+    for l, o in zip(lines[1:], out[1:]):
+        p = l.split()
+        if p[0] == "DL" and o.startswith("OK"):
+            dtext[("d" if p[1] == "D" else "f", p[-1])] = bytes.fromhex(o.split()[1]).decode("latin1")
     # direct oracle on the real code: text is the decimal numeral, footprint within the compiled reservation
     for l, o in zip(lines[1:], out[1:]):
         p = l.split()
@@ -198,9 +256,27 @@ def part_formatters(c, drv, kconst):
                 c.violation("formatter-wrong-text: ToString(%s bits %s) = %r does not denote the value" % (p[1], p[-1], text), {"harness": "hx_tostring", "case": l, "impl": o})
         elif p[0] == "SS":
             c.count(l, bucket="string-stream")
+            wb = expected_stream_bytes(p[1:], dtext)
+            if wb is not None and len(wb) <= 70000 and op[-1] != "sum=%d" % stream_checksum(wb):
+                c.violation("string-stream-content: util::StringStream does not hold the bytes of the operations %s (checksum %s, expected sum=%d)" % (" ".join(p[1:])[:120], op[-1], stream_checksum(wb)),
+                            {"harness": "hx_tostring", "case": l[:600], "impl": o[:300], "expected_tail_hex": wb[-40:].hex()})
+            want = expected_stream_length(p[1:], dtext)
+            if want is not None and int(op[1]) != want:
+                c.violation("string-stream-content: util::StringStream holds %s bytes after %s, the operations produce %d" % (op[1], " ".join(p[1:])[:120], want),
+                            {"harness": "hx_tostring", "case": l[:600], "impl": o[:300], "expected_length": want})
         elif p[0] in ("ST", "TS"):
             c.count(l, bucket=("stream/" if p[0] == "ST" else "threaded-stream/") + ("edge" if len(p) == 4 else "random"))
             sizes = [int(x) for x in op[1:-1]]
+            wb = expected_stream_bytes(p[1:], dtext)
+            if wb is not None and len(wb) <= 70000 and op[-1] != "sum=%d" % stream_checksum(wb):
+                c.violation("stream-content: %s did not write the bytes of the operations %s (checksum %s, expected sum=%d)" % (
+                    "util::FileStream" if p[0] == "ST" else "util::ThreadedBufferedStream", " ".join(p[1:])[:120], op[-1], stream_checksum(wb)),
+                    {"harness": "hx_tostring", "case": l[:600], "impl": o[:300], "expected_tail_hex": wb[-40:].hex()})
+            want = expected_stream_length(p[1:], dtext)
+            if want is not None and sum(sizes) != want:
+                c.violation("stream-content: %s wrote %d bytes in total after %s, the operations produce %d" % (
+                    "util::FileStream" if p[0] == "ST" else "util::ThreadedBufferedStream", sum(sizes), " ".join(p[1:])[:120], want),
+                    {"harness": "hx_tostring", "case": l[:600], "impl": o[:300], "expected_length": want})
             if p[0] == "TS" and (0 in sizes or any(x > k["block"] for x in sizes)):
                 c.violation("threaded-stream-block: ThreadedBufferedStream handed blocks of sizes %s to its writer (0 = poison, max %d)" % (sizes[:8], k["block"]),
                             {"harness": "hx_tostring", "case": l[:600], "impl": o[:300]})
